@@ -73,7 +73,7 @@ class SharedDbSys:
     def _open(self, snap):
         db, r1, r2, roots = snap
         d = LogDict(db)
-        return d, HexaryTrie(d, r1), HexaryTrie(d, r2)
+        return d, HexaryTrie(d, bytes(bytearray(r1))), HexaryTrie(d, bytes(bytearray(r2)))
 
     def step(self, snap, model, ev):
         db0, r1, r2, roots = snap
